@@ -186,6 +186,31 @@ def grid_case(ctx, idx, rng):
         ctx.case(('lanczos', 'n<=10', 'phase-structured', 'i*antisymmetric', 'imag-start' if np.iscomplexobj(vr) else 'real-start', 'm>n' if m > n else 'm<=n'),
                  sample={'n': n, 'm': m, 'A': K, 'v': vr})
         check_lanczos(ctx, K, vr, m, rng=rng)
+    if idx % 5 == 4 and n >= 3:
+        # LOCALISED start vector on a sparse / banded map whose character changes away from the start: a tight-binding chain with complex (Peierls) phases on
+        # bonds far from a localised real start state, a dense Hermitian matrix whose imaginary part vanishes on the rows and columns of the support of the
+        # start vector -- the first images A v, A^2 v, ... are exactly real (or exactly sparse) although the map is not
+        k = int(rng.integers(1, max(2, n // 2)))
+        v0 = np.zeros(n)
+        v0[:k] = rng.normal(size=k)
+        if not v0.any():
+            v0[0] = 1.0
+        fam = ('peierls-chain', 'imaginary-part-off-support')[(idx // 5) % 2]
+        if fam == 'peierls-chain':
+            hop = rng.normal(size=n - 1).astype(complex)
+            far = np.arange(n - 1) >= k
+            hop = np.where(far, hop * np.exp(1j * rng.uniform(0.3, 2.8, size=n - 1)), hop)
+            As = np.diag(rng.normal(size=n)).astype(complex) + np.diag(hop, 1) + np.diag(hop.conj(), -1)
+        else:
+            R = rng.normal(size=(n, n)); R = R + R.T
+            Kp = rng.normal(size=(n, n)); Kp = Kp - Kp.T
+            Kp[:k, :] = 0; Kp[:, :k] = 0
+            As = R + 1j * Kp
+        ctx.case(('lanczos', 'n<=10', 'localised-real-start', fam, 'm>n' if m > n else 'm<=n'), sample={'n': n, 'm': m, 'A': As, 'v': v0, 'support': k})
+        check_lanczos(ctx, As, v0, m, rng=rng)
+        Bs = As + np.triu(rng.normal(size=(n, n)) * (np.arange(n)[:, None] >= k), 1) * 1j      # non-Hermitian, still real on the support of v0
+        ctx.case(('arnoldi', 'n<=10', 'localised-real-start', fam, 'm>n' if m > n else 'm<=n'), sample={'n': n, 'm': m, 'B': Bs, 'v': v0, 'support': k})
+        check_arnoldi(ctx, Bs, v0, m, rng=rng)
 
 
 def large_case(ctx, idx, rng):
@@ -366,7 +391,7 @@ SPEC = {
     'id': 'C14',
     'rule': ('grid: every (n, m) with 1<=n<=10, 1<=m<=n+5 x spectra (separated, degenerate, clustered, Gaussian) x starts (generic, real, '
              'structural / rotated invariant subspace, eigenvector) x real/complex, Lanczos on the Hermitian matrix and Arnoldi on a general or '
-             'the same matrix, plus phase-structured data (i*real / -i*real matrices with real or purely imaginary start vectors, i*antisymmetric Hermitian matrices); large: n in {20,50,120,300}, m<=24 and long runs m up to 96; F6 cases n=m in {32,48,64}; in situ: every lanczos/arnoldi call raised by one/two-site TDVP and DMRG sweeps (site-local and bond-local effective Hamiltonians materialised column by column, block-sparse start vectors, numiter 1..25 below and above the local dimension), by expm_krylov on general matrices, and (thorough) by the repository test-suite. The always-on relations (sizes, real alpha, '
+             'the same matrix, plus phase-structured data (i*real / -i*real matrices with real or purely imaginary start vectors, i*antisymmetric Hermitian matrices) and localised real start vectors on maps that are real only on the support of the start vector (Peierls chains, imaginary part off the support); large: n in {20,50,120,300}, m<=24 and long runs m up to 96; F6 cases n=m in {32,48,64}; in situ: every lanczos/arnoldi call raised by one/two-site TDVP and DMRG sweeps (site-local and bond-local effective Hamiltonians materialised column by column, block-sparse start vectors, numiter 1..25 below and above the local dimension), by expm_krylov on general matrices, and (thorough) by the repository test-suite. The always-on relations (sizes, real alpha, '
              'beta>0, unit norms, three-term recurrence, local orthogonality, Afunc call count, justified early return, full length when '
              'the independent re-orthogonalised Krylov dimension is >= m with margin) are demanded everywhere; and so are global '
              'orthonormality and V^H A V = T on the leading min(k, Krylov dimension) vectors (the conditioning indicator min beta_j|s_ji|/||T|| '
